@@ -282,6 +282,9 @@ def check_C08(ctx):
                 'through the tokenize hook, the Coq tokenizer model and the independent maximal-munch lexical '
                 'specification (oracles.lex_spec); non-trivial = text has >=2 lexemes or a lexical error; distinct by text')
     cases = text_batch(ctx, ctx.n(80, 4000), ctx.n(250, 30000), ctx.n(170, 16000))
+    # exhaustive: every ordered pair of core lexemes glued / separated in every way, every glued triple of a smaller core
+    # (what a lexeme is may depend on its neighbours only through these)
+    cases += [('pair', s) for s in gen.lex_pairs()]
     srcs = [s for _, s in cases]
     r = vlib.run_rust('tok', hex_lines(srcs))
     m = vlib.run_model('tok', [vlib.cps(s) for s in srcs]) if ctx.model_ok else [None] * len(srcs)
@@ -603,6 +606,23 @@ def check_C16(ctx):
                 if t.startswith('#['):
                     flat.append('\n')
             pairs.append((s, gen.layout(ctx.rng, [flat], 'random')))
+    # exhaustive over neighbours: every ordered pair of core lexemes at three places of a small file, glued and separated in
+    # every way; the variants that have the same token sequence (by the lexical specification) must give the same result
+    core = ['start', 'struct', 'enum', 'terminal', '_', 'Abc', 'abc', '$Abc', ':', '::', ',', '(', ')', '{', '}', '<', '>', '#[a]\n', 'crate']
+    frames = [('start A\nstruct A($K)\nterminal T { $K: crate', ' }\n'), ('start A\nstruct A { f: ', ' }\nterminal T { $K: () }\n'),
+              ('start A\n', '\nstruct A\nterminal T { $K: () }\n')]
+    for pre, post in frames:
+        for x in core:
+            for y in core:
+                variants = [pre + sep1 + x + sep + y + post for sep1 in ('', ' ') for sep in gen.LEX_SEPS]
+                groups = {}
+                for v in variants:
+                    tk = oracles.lex_spec(v)
+                    if tk[0] == 'ok':
+                        groups.setdefault(tuple(t['text'] for t in tk[1]), []).append(v)
+                for vs in groups.values():
+                    for v in vs[1:]:
+                        pairs.append((vs[0], v))
     srcs = [x for p in pairs for x in p]
     r, m = run_gen_both(ctx, srcs)
     for i, (a, b) in enumerate(pairs):
